@@ -23,6 +23,8 @@ type c10Replay struct {
 	Token    string `json:"token"`
 	Embedded bool   `json:"embedded_in_rich_account"`
 	Note     string `json:"note"`
+	// Genuine: a token that was validated earlier in the same process (the one Token was derived from)
+	Genuine string `json:"validated_before,omitempty"`
 }
 
 // indepActivation: the harness's own reading of an activation token (no library decoder involved):
@@ -99,6 +101,16 @@ func indepActivation(tok string) indepAct {
 }
 
 func evalC10(c *Ctx, rp c10Replay) {
+	if rp.Genuine != "" {
+		// a server that validated the genuine import earlier: the verdict on the altered token must not depend on it
+		func() {
+			defer func() { recover() }()
+			jwt.DecodeActivationClaims(rp.Genuine)
+			g := jwt.NewAccountClaims(rp.Importer)
+			g.Imports.Add(&jwt.Import{Name: "g", Subject: jwt.Subject(rp.Subject), Account: rp.Exporter, Type: jwt.ExportType(rp.Type), To: jwt.Subject(rp.To), Token: rp.Genuine})
+			g.Validate(jwt.CreateValidationResults())
+		}()
+	}
 	imp := &jwt.Import{Name: "i", Subject: jwt.Subject(rp.Subject), Account: rp.Exporter, Type: jwt.ExportType(rp.Type), To: jwt.Subject(rp.To), Token: rp.Token}
 	ac := jwt.NewAccountClaims(rp.Importer)
 	ac.Issuer = kr.op[0]
@@ -232,8 +244,16 @@ func runC10(c *Ctx) {
 					}
 					must(err)
 					note := "well-formed"
+					genuine := ""
 					if mask&16 != 0 { // tampered / foreign
-						switch c.R.Intn(4) {
+						genuine = tok
+						switch c.R.Intn(5) {
+						case 4:
+							// the payload altered so that it grants everything, under the genuine signature
+							segs := strings.Split(tok, ".")
+							pb, _ := b64.DecodeString(segs[1])
+							pb2 := []byte(strings.Replace(string(pb), `"`+grant+`"`, `">"`, 1))
+							tok, note = segs[0]+"."+b64.EncodeToString(pb2)+"."+segs[2], "tampered-payload-wider-grant"
 						case 0:
 							b := []byte(tok)
 							i := strings.LastIndex(tok, ".") + 1 + c.R.Intn(10)
@@ -252,7 +272,7 @@ func runC10(c *Ctx) {
 							tok, note = "garbage."+tok[:20], "garbage"
 						}
 					}
-					rp := c10Replay{importer, exporter, typ, imported, to, tok, c.R.Bool(), fmt.Sprintf("%s:mask=%d:signer=%d:%s", note, mask, signer, layout)}
+					rp := c10Replay{importer, exporter, typ, imported, to, tok, c.R.Bool(), fmt.Sprintf("%s:mask=%d:signer=%d:%s", note, mask, signer, layout), genuine}
 					rp.Note = note + ":" + layout
 					evalC10(c, rp)
 					if round == 0 && mask == 0 && signer == 0 && layout == "v2" {
